@@ -29,7 +29,9 @@ import (
 	"github.com/anishathalye/porcupine"
 	"github.com/cenkalti/backoff/v5"
 
+	"verif/harness/drive"
 	"verif/harness/fw"
+	"verif/harness/refmatch"
 )
 
 func init() { register("C18", checkC18) }
@@ -321,6 +323,116 @@ func runC18RdnsCache(c *fw.Ctx, id string) {
 			c.Count("cache_misses", 1)
 		}
 	}
+}
+
+// runC18ManyKeys: a long-lived process looks up many more addresses than one path has (600, each answered); inside the
+// hour every one of them - the first as well as the last - is served from the cache without another query, and so is the
+// public IP that was stored before them.
+func runC18ManyKeys(c *fw.Ctx, id string) {
+	resetProcessState()
+	var qmu sync.Mutex
+	queriesM := map[string]int{}
+	rs := installResolver(func(addr string) ([]string, error, time.Duration) {
+		qmu.Lock()
+		defer qmu.Unlock()
+		queriesM[addr]++
+		return []string{fmt.Sprintf("q%d.%s.example.", queriesM[addr], addr)}, nil, 0
+	})
+	defer rs.restore()
+	queries := func(a string) int { qmu.Lock(); defer qmu.Unlock(); return queriesM[a] }
+	rt := &scriptedRT{scripts: map[string][]providerStep{}, t0: time.Now()}
+	for _, h := range providerHosts {
+		rt.scripts[h] = []providerStep{{kind: "valid4", ip: "192.0.2.55"}}
+	}
+	f := publicip.VerifNewPublicIPFetcher(&http.Client{Transport: rt})
+	if _, err := f.GetIP(context.Background()); err != nil {
+		c.Inconclusive(id + ": " + err.Error())
+		return
+	}
+	n0 := len(rt.log)
+	addr := func(i int) string { return fmt.Sprintf("198.51.%d.%d", 100+i/250, 1+i%250) }
+	const N = 600
+	for i := 0; i < N; i++ {
+		if _, err := reversedns.GetReverseDns(addr(i)); err != nil {
+			c.Violate("C18", "success-lost", fmt.Sprintf("%s: lookup %d failed: %v", id, i, err), nil)
+			return
+		}
+		if i%100 == 99 {
+			time.Sleep(time.Minute)
+		}
+	}
+	for _, i := range []int{0, 1, 255, 511, 512, 513, N - 1} {
+		names, err := reversedns.GetReverseDns(addr(i))
+		if queries(addr(i)) != 1 || err != nil || len(names) != 1 || !strings.HasPrefix(names[0], "q1.") {
+			c.Violate("C18", "cache-hit-requeried", fmt.Sprintf("%s: %s was looked up %d minutes ago (entries live one hour, %d addresses were looked up since): resolver queried %d times, got %v err=%v", id, addr(i), 6, N, queries(addr(i)), names, err), nil)
+			return
+		}
+	}
+	if _, err := f.GetIP(context.Background()); err != nil || len(rt.log) != n0 {
+		c.Violate("C18", "fetcher-hit-requeried", fmt.Sprintf("%s: the public IP was stored %d minutes ago (2 h expiry) and %d reverse-DNS entries later the providers were asked again (%d new requests, err=%v)", id, 6, N, len(rt.log)-n0, err), nil)
+		return
+	}
+	c.Nontrivial("many-keys")
+	c.Count("many_keys_lookups", N)
+}
+
+// runC18RequestEnrich: enrichment as a whole request performs it (RunTraceroute with ReverseDns over the simulated wire):
+// one router's lookup is slow but successful (3.5 s, inside the 5 s lookup limit), the others answer at once. Every
+// answered hop and the destination carry exactly the names the resolver returned for their address.
+func runC18RequestEnrich(c *fw.Ctx, id string, k int) {
+	resetProcessState()
+	proto := []string{"udp", "icmp", "tcp"}[k%3]
+	v := map[string]refmatch.Variant{"udp": refmatch.VariantByName("udp4"), "icmp": refmatch.VariantByName("icmp4"), "tcp": refmatch.VariantByName("syn")}[proto]
+	target := drive.TargetFor(v, 60+c.Worker)
+	params := traceroute.TracerouteParams{Hostname: target.String(), Port: 33434, Protocol: proto, MinTTL: 1, MaxTTL: 6, Delay: 10, Timeout: 200 * time.Millisecond,
+		TCPMethod: traceroute.TCPConfigSYN, TracerouteQueries: 2, E2eQueries: 1, ReverseDns: true}
+	env, err := newReqEnv(c, params, target, 33434, false)
+	if err != nil {
+		c.Inconclusive(err.Error())
+		return
+	}
+	defer env.close()
+	env.modelFor = func(fk int, e *simEnv) *pathModel { return flowPath(fk, e, 4, true, 2*time.Millisecond) }
+	var smu sync.Mutex
+	slowSeen := ""
+	rs := installResolver(func(addr string) ([]string, error, time.Duration) {
+		smu.Lock()
+		if slowSeen == "" && addr != target.String() {
+			slowSeen = addr
+		}
+		slow := addr == slowSeen
+		smu.Unlock()
+		if slow {
+			return namesFor(addr), nil, time.Duration(2500+500*(k%4)) * time.Millisecond
+		}
+		return namesFor(addr), nil, time.Millisecond
+	})
+	defer rs.restore()
+	out, rerr := env.run(context.Background())
+	if rerr != nil || out == nil {
+		c.Inconclusive(fmt.Sprintf("%s: request failed: %v", id, rerr))
+		return
+	}
+	checked := 0
+	for ri, run := range out.Traceroute.Runs {
+		if want := namesFor(run.Destination.IPAddress.String()); len(run.Destination.IPAddress) > 0 && fmt.Sprint(run.Destination.ReverseDns) != fmt.Sprint(want) {
+			c.Violate("C18", "request-dest-names", fmt.Sprintf("%s: run %d destination %s has names %v, the resolver returned %v", id, ri, run.Destination.IPAddress, run.Destination.ReverseDns, want), nil)
+		}
+		for _, h := range run.Hops {
+			if len(h.IPAddress) == 0 {
+				continue
+			}
+			checked++
+			if want := namesFor(h.IPAddress.String()); fmt.Sprint(h.ReverseDns) != fmt.Sprint(want) {
+				c.Violate("C18", "request-hop-names", fmt.Sprintf("%s: run %d hop %d (%s) has names %v, the resolver returned %v (one lookup of the request took %v)", id, ri, h.TTL, h.IPAddress, h.ReverseDns, want, time.Duration(2500+500*(k%4))*time.Millisecond), nil)
+				return
+			}
+		}
+	}
+	if checked > 0 {
+		c.Nontrivial(fmt.Sprintf("request-enrich/%s", proto))
+	}
+	c.Count("request_hops_enriched", checked)
 }
 
 // ---------------------------------------------------------------------------------------------
@@ -864,6 +976,11 @@ func checkC18() fw.Check {
 				cases = append(cases, fw.Case{ID: fmt.Sprintf("C18/cache-porcupine/%d", i), Bubble: false, Run: func(c *fw.Ctx) { runC18CachePorcupine(c, c.ID, c.T) }})
 				cases = append(cases, fw.Case{ID: fmt.Sprintf("C18/publicip/%d", i), Bubble: true, Run: func(c *fw.Ctx) { runC18PublicIP(c, c.ID) }})
 				if i == 0 {
+					cases = append(cases, fw.Case{ID: "C18/many-keys", Bubble: true, Run: func(c *fw.Ctx) { runC18ManyKeys(c, c.ID) }})
+					for k := 0; k < 4; k++ {
+						k := k
+						cases = append(cases, fw.Case{ID: fmt.Sprintf("C18/request-enrich/%d", k), Bubble: true, Run: func(c *fw.Ctx) { runC18RequestEnrich(c, c.ID, k) }})
+					}
 					cases = append(cases, fw.Case{ID: "C18/production-path", Run: func(c *fw.Ctx) { runC18ProductionPath(c, c.ID) }})
 				}
 				cases = append(cases, fw.Case{ID: fmt.Sprintf("C18/fetcher-cache/%d", i), Bubble: true, Run: func(c *fw.Ctx) { runC18FetcherCache(c, c.ID) }})
